@@ -56,12 +56,15 @@ def agree(hs: H, h: H, skip=('f_attack_step_nodes',), both=False):
 
 
 def fresh_closed(h: H, a0):
-    """SEP: every container allocated since a0 references (as dict value / list element) only containers allocated since a0"""
+    """SEP: every container allocated since a0 references (as dict value / list element) only containers allocated since a0
+    (references to non-container objects held inside plain data are outside the claim)"""
     d = A('d!fc')
     k = z3.Const('k!fc', Val)
+    is_c = lambda a: z3.Or(h.cls(a) == CLS_LIST, h.cls(a) == CLS_DICT)
     return z3.And(
-        FA([d, k], z3.Implies(z3.And(d >= a0, d < h.alloc, h.cls(d) == CLS_DICT, h.has(d, k), is_VRef(h.val(d, k))), v_a(h.val(d, k)) >= a0), [h.val(d, k)]),
-        FA([d, k], z3.Implies(z3.And(d >= a0, d < h.alloc, h.cls(d) == CLS_LIST, h.bag(d, k) > 0, is_VRef(k)), v_a(k) >= a0), [h.bag(d, k)]))
+        FA([d, k], z3.Implies(z3.And(d >= a0, d < h.alloc, h.cls(d) == CLS_DICT, h.has(d, k), is_VRef(h.val(d, k)), is_c(v_a(h.val(d, k)))),
+                              v_a(h.val(d, k)) >= a0), [h.val(d, k)]),
+        FA([d, k], z3.Implies(z3.And(d >= a0, d < h.alloc, h.cls(d) == CLS_LIST, h.bag(d, k) > 0, is_VRef(k), is_c(v_a(k))), v_a(k) >= a0), [h.bag(d, k)]))
 
 
 def old_region_unchanged_all(o: H, h: H):
